@@ -1,3 +1,3 @@
 // ---- shims of the three Promise types (trusted contracts; the real bodies - Option::take, oneshot::Sender::send, Box<dyn FnOnce> -
-// are outside the Verus subset and are checked by the Kani harnesses k_promise_*).  A promise completes at most once:
+// are outside the Verus subset and were tried with Kani and time out after 20 min: ASSUMED).  A promise completes at most once:
 // `outcome()` is None while pending and keeps the FIRST completion forever [C10].
